@@ -44,8 +44,8 @@ static const char *litname[] = { "\"\"", "\"a\"", "\"ab\"", "\"ba\"", "\"baba\""
 /* position and count arguments */
 enum { P_0, P_1, P_SIZE_M1, P_SIZE, P_SIZE_P1, P_MAX_M1, P_MAX, NPOS };
 static const char *posname[] = { "0", "1", "size-1", "size", "size+1", "SIZE_MAX-1", "SIZE_MAX" };
-enum { C_0, C_1, C_2, C_SIZE, C_MAX, C_MAX_M1, C_MAX_MSIZE, C_MAX_MSIZE_P1, C_Q, C_Q_P1, C_MAX_MPOS, NCNT };
-static const char *cntname[] = { "0", "1", "2", "size", "SIZE_MAX", "SIZE_MAX-1", "SIZE_MAX-size", "SIZE_MAX-size+1", "SIZE_MAX/4", "SIZE_MAX/4+1", "SIZE_MAX-pos" };
+enum { C_0, C_1, C_2, C_SIZE, C_MAX, C_MAX_M1, C_MAX_MSIZE, C_MAX_MSIZE_P1, C_Q, C_Q_P1, C_MAX_MPOS, C_E_M1, C_E_M2, C_E_M1_MSIZE, NCNT };
+static const char *cntname[] = { "0", "1", "2", "size", "SIZE_MAX", "SIZE_MAX-1", "SIZE_MAX-size", "SIZE_MAX-size+1", "SIZE_MAX/4", "SIZE_MAX/4+1", "SIZE_MAX-pos", "SIZE_MAX/sizeof(char_type)-1", "SIZE_MAX/sizeof(char_type)-2", "SIZE_MAX/sizeof(char_type)-1-size" };
 
 enum { O_SET = 1, O_INS_CH, O_INS_STRN, O_INS_OBJ, O_APPEND_OBJ, O_APPEND_CH, O_APPEND_STR, O_ERASE, O_SUBSTR, O_RESIZE, O_RESERVE, O_SWAP, O_CLEAR,
        O_B_SET, O_B_CLEAR, O_B_RESIZE1, O_B_ERASEALL };
@@ -102,6 +102,8 @@ static size_t cntval(int c, size_t size, size_t pos)
     case C_0: return 0; case C_1: return 1; case C_2: return 2; case C_SIZE: return size; case C_MAX: return SIZE_MAX; case C_MAX_M1: return SIZE_MAX - 1;
     case C_MAX_MSIZE: return SIZE_MAX - size; case C_MAX_MSIZE_P1: return SIZE_MAX - size + 1; case C_Q: return SIZE_MAX / 4; case C_Q_P1: return SIZE_MAX / 4 + 1;
     case C_MAX_MPOS: return SIZE_MAX - pos;
+    /* the largest character counts whose byte size (with the terminator and the vector's spare element) is about to stop being representable */
+    case C_E_M1: return SIZE_MAX / sizeof(CH) - 1; case C_E_M2: return SIZE_MAX / sizeof(CH) - 2; case C_E_M1_MSIZE: return SIZE_MAX / sizeof(CH) - 1 - size;
     case 100: return size + 1; case 101: return 3;
     default: return 0;
     }
@@ -256,7 +258,10 @@ static void w_audit(void)
         if (p == NULL) return;
         if (n > 0) {
             shim_blk *b = shim_find(p);
-            MC_CHECK(PC10, SF(data)(s) != NULL && b != NULL && (size_t)((const char *)p - (const char *)b->p) + (n + 1) * sizeof(CH) <= b->sz, "string %d: str() does not point into a live allocation with room for size+1 characters", k);       /* where in its block the storage starts is the library's business */
+            /* the characters live in storage the string owns: a live allocation of the library, or the string object itself (an implementation may keep short
+             * strings inline; the statement speaks of "the string's storage") - in either case with room for size+1 characters */
+            int inline_ok = (const char *)p >= (const char *)s && (const char *)p + (n + 1) * sizeof(CH) <= (const char *)s + sizeof *s;
+            MC_CHECK(PC10, SF(data)(s) != NULL && (inline_ok || (b != NULL && (size_t)((const char *)p - (const char *)b->p) + (n + 1) * sizeof(CH) <= b->sz)), "string %d: str() does not point into storage of the string (a live allocation or the object itself) with room for size+1 characters", k);       /* where in its block the storage starts is the library's business */
             if (mc_branch_dead) return;
         }   /* an empty string may be represented by any readable NUL (the library's static nul or its own buffer) */
         for (i = 0; i < (int)n; i++) MC_CHECK(PC10, p[i] == M[k].c[i], "string %d: character %d is %d, reference has %d", k, i, (int)p[i], (int)M[k].c[i]);
